@@ -34,6 +34,7 @@ Print Assumptions delete_only_unreferenced.
 (* one step, any state (the induction step of MAIN 1) *)
 Theorem step_deletes_unreferenced : forall s x l c,
   sharing_visible s = true -> reingest s x = false -> target_inside x = true -> put_coherent x = true ->
+  live_trash_disjoint s = true ->
   touches_env s x l = false ->
   fget (fs s) l = Some c -> fget (fs (fst (step s x))) l = None ->
   referenced (fst (step s x)) l = false.
@@ -50,8 +51,8 @@ Print Assumptions empty_trash_unreferenced.
 
 (* siblings survive: while a still-stored dataset names the file, pruning others leaves it in place, unchanged *)
 Theorem shared_survives : forall s ids l c,
-  sharing_visible s = true -> fget (fs s) l = Some c ->
-  referenced (empty_trash (do_trash s ids)) l = true ->
+  sharing_visible s = true -> live_trash_disjoint s = true -> fget (fs s) l = Some c ->
+  referenced (fst (step s (Prune ids))) l = true ->
   fget (fs (fst (step s (Prune ids)))) l = Some c.
 Proof. exact shared_survives_p. Qed.
 Print Assumptions shared_survives.
@@ -65,8 +66,33 @@ Theorem never_touch_foreign : forall h s l,
 Proof. exact never_touch_foreign_p. Qed.
 Print Assumptions never_touch_foreign.
 
+(* MAIN 2 AT FULL STRENGTH (5539e78 modelled): NO guard on the state or on the records.  For EVERY start state -- any record
+   table, including records that resolve outside the root -- and EVERY history whose operations are well-formed (op_ok: put /
+   ingest carry a formatter extension, a zip path is inside, a put's text is not the root itself): a location outside the
+   root that the environment does not touch keeps its content or absence.  Guard (4) recs_inside is discharged: the code
+   enforces it each time a record is turned into a location. *)
+Theorem never_touch_foreign_full : forall h s l,
+  all_ops_ok h = true -> inside l = false -> untouched_by_env s h l = true ->
+  fget (fs (run s h)) l = fget (fs s) l.
+Proof. exact never_touch_foreign_full_p. Qed.
+Print Assumptions never_touch_foreign_full.
+
+Theorem step_outside_frame_full : forall s x l,
+  op_ok x = true -> inside l = false -> touches_env s x l = false ->
+  fget (fs (fst (step s x))) l = fget (fs s) l.
+Proof. exact step_outside_frame_full_p. Qed.
+Print Assumptions step_outside_frame_full.
+
+(* emptyTrash / prune / removeRuns, ANY state, ANY records: nothing outside the root changes *)
+Theorem removal_never_outside : forall s ids l, inside l = false ->
+  fget (fs (fst (step s EmptyTrash))) l = fget (fs s) l
+  /\ fget (fs (fst (step s (Prune ids)))) l = fget (fs s) l
+  /\ fget (fs (fst (step s (RemoveRun ids)))) l = fget (fs s) l.
+Proof. exact removal_never_outside_p. Qed.
+Print Assumptions removal_never_outside.
+
 Theorem step_outside_frame : forall s x l,
-  recs_inside s = true -> target_inside x = true -> put_coherent x = true -> inside l = false -> touches_env s x l = false ->
+  target_inside x = true -> put_coherent x = true -> inside l = false -> touches_env s x l = false ->
   fget (fs (fst (step s x))) l = fget (fs s) l.
 Proof. exact step_outside_frame_p. Qed.
 Print Assumptions step_outside_frame.
@@ -76,12 +102,19 @@ Theorem trash_touches_no_file : forall s ids, fs (do_trash s ids) = fs s.
 Proof. exact do_trash_fs. Qed.
 Print Assumptions trash_touches_no_file.
 
+(* an absolute record path (transfer="direct": a file the datastore does not own, outside OR below its root) is never
+   removed by emptyTrash, whatever the rest of the record table says *)
+Theorem direct_never_deleted : forall s p, is_abs p = true -> deletes s p = false /\ poison s p = false.
+Proof. exact direct_never_deleted_p. Qed.
+Print Assumptions direct_never_deleted.
+
 (* ---- containment ------------------------------------------------------------------------------------------------ *)
 
 (* the model's `step` is the code of the working tree: FileDatastore builds the location of a new artifact with
-   trusted_path=False at both sites (GEN_LOCATION_CHECKED is regenerated from fileDatastore.py / _location.py on every
-   run; reverting df0ecd0 makes it false and this theorem fail) *)
-Theorem model_is_the_code : step_v GEN_LOCATION_CHECKED = step.
+   trusted_path=False at both sites (GEN_LOCATION_CHECKED, df0ecd0) and StoredFileInfo.file_location builds the location of a
+   relative RECORD path with trusted_path=False (GEN_RECORD_CHECKED, 5539e78); both flags are regenerated from
+   fileDatastore.py / stored_file_info.py / _location.py on every run; reverting either commit makes this theorem fail *)
+Theorem model_is_the_code : step_v GEN_LOCATION_CHECKED GEN_RECORD_CHECKED = step.
 Proof. reflexivity. Qed.
 Print Assumptions model_is_the_code.
 
@@ -210,17 +243,17 @@ Print Assumptions containment_refuted_without_fix.
 
 Theorem outside_put_refuted_without_fix :
   exists run s', fget (fs st0) sent0 = Some 2%N
-    /\ step_v false st0 (Put 1 (fmt run) ".yaml" 9) = (s', Refused RuntimeErr)
+    /\ step_v false false st0 (Put 1 (fmt run) ".yaml" 9) = (s', Refused RuntimeErr)
     /\ fget (fs s') sent0 = None /\ inside sent0 = false.
 Proof. exact outside_put_refuted_without_fix_p. Qed.
 Print Assumptions outside_put_refuted_without_fix.
 
 Theorem outside_ingest_refuted_without_fix :
   exists run s1,
-    step_v false st0 (Ingest Copy [1%N] (fmt run) ".yaml" stage0) = (s1, Done)
+    step_v false false st0 (Ingest Copy [1%N] (fmt run) ".yaml" stage0) = (s1, Done)
     /\ fget (fs st0) sent0 = Some 2%N /\ fget (fs s1) sent0 = Some 1%N
     /\ recs_inside s1 = false
-    /\ fget (fs (fst (step s1 (Prune [1%N])))) sent0 = None.
+    /\ fget (fs (fst (step_v false false s1 (Prune [1%N])))) sent0 = None.
 Proof. exact outside_ingest_refuted_without_fix_p. Qed.
 Print Assumptions outside_ingest_refuted_without_fix.
 
@@ -250,29 +283,43 @@ Theorem delete_refuted_zip_reingest :
 Proof. exact zip_reingest_refuted_p. Qed.
 Print Assumptions delete_refuted_zip_reingest.
 
-(* FINDING F-C09-nested-escape (code as it is, df0ecd0 included): guard (4) is necessary.  ingest(copy) into a run that encodes
-   ".." THREE times is accepted -- the written location is inside the root, guard (3) holds -- but the record it leaves names a
-   location OUTSIDE the root, and pruning the dataset deletes the foreign file there (replayed: corpus/C09 10) *)
-Theorem foreign_refuted_nested_escape :
-  let s1 := fst (step st1 nested_ingest) in
+(* REPAIRED finding F-C09-nested-escape (5539e78).  Before it (step_nofix = step_v true false: df0ecd0 in, record paths not
+   checked at use time) ingest(copy) into a run that encodes ".." THREE times was accepted -- the written location is inside
+   the root -- the record it leaves names a location OUTSIDE the root, and pruning the dataset deleted the foreign file there *)
+Theorem foreign_refuted_nested_escape_without_fix :
+  let s1 := fst (step_nofix st1 nested_ingest) in
     (exists p, fmt1 run3 = FOk p /\ checked true p = true)
-    /\ snd (step st1 nested_ingest) = Done
+    /\ snd (step_nofix st1 nested_ingest) = Done
     /\ target_inside nested_ingest = true
     /\ fget (fs s1) sentA = Some 3%N /\ inside sentA = false
     /\ recs_inside s1 = false
-    /\ fget (fs (fst (step s1 (Prune [1%N])))) sentA = None.
+    /\ fget (fs (fst (step_nofix s1 (Prune [1%N])))) sentA = None.
 Proof. exact foreign_refuted_nested_escape_p. Qed.
-Print Assumptions foreign_refuted_nested_escape.
+Print Assumptions foreign_refuted_nested_escape_without_fix.
 
-Theorem foreign_refuted_nested_escape_put :
-  let s1 := fst (step st1 nested_put) in
-    snd (step st1 nested_put) = Done
+Theorem foreign_refuted_nested_escape_put_without_fix :
+  let s1 := fst (step_nofix st1 nested_put) in
+    snd (step_nofix st1 nested_put) = Done
     /\ target_inside nested_put = true /\ put_coherent nested_put = false
     /\ recs s1 = [(2%N, "../sentinel/dtD/dtD_Cam_det0_.._sentinel.yaml")]
     /\ fget (fs s1) sentB = Some 4%N /\ inside sentB = false
-    /\ fget (fs (fst (step s1 (Prune [2%N])))) sentB = None.
+    /\ fget (fs (fst (step_nofix s1 (Prune [2%N])))) sentB = None.
 Proof. exact foreign_refuted_nested_escape_put_p. Qed.
-Print Assumptions foreign_refuted_nested_escape_put.
+Print Assumptions foreign_refuted_nested_escape_put_without_fix.
+
+(* with 5539e78: the ingest is still accepted and still leaves such a record (recs_inside is NOT an invariant), but prune is
+   refused with ValueError and the foreign file keeps its content.  Residue (not a C09 clause): the dataset sits in the trash
+   with its record, its artifact inside the root stays, and every later emptyTrash is refused at that row *)
+Theorem nested_escape_refused_now :
+  let s1 := fst (step st1 nested_ingest) in
+  let s2 := fst (step s1 (Prune [1%N])) in
+    snd (step st1 nested_ingest) = Done /\ recs_inside s1 = false
+    /\ snd (step s1 (Prune [1%N])) = Refused ValueErr
+    /\ fget (fs s2) sentA = Some 3%N
+    /\ recs s2 = recs s1 /\ live s2 = [] /\ trash s2 = [1%N]
+    /\ fget (fs s2) ["%2E%2E"; "sentinel"; "dtD"; "dtD_Cam_det1_%2E%2E_sentinel.yaml"] = Some 1%N.
+Proof. exact nested_escape_refused_now_p. Qed.
+Print Assumptions nested_escape_refused_now.
 
 (* guard (5) fails on "a%2eb": put is refused (FileNotFoundError) and leaves the formatter's file behind -- an orphan INSIDE
    the root, no record, nothing outside touched (replayed: corpus/C09 11; not a C09 violation) *)
@@ -343,3 +390,6 @@ Proof. exact good_ext_formatters. Qed.
 
 Example demo_is_guarded2 : guarded2 st0 demo = true.
 Proof. exact demo_guarded2. Qed.
+
+Example demo_is_ops_ok : all_ops_ok demo = true /\ all_ops_ok [nested_ingest; nested_put; Prune [1%N; 2%N]] = true.
+Proof. exact demo_ops_ok. Qed.
